@@ -18,7 +18,8 @@ RULE = ("cases: random clamped shapes (curve/surface/volume, rational or not, no
         "r >= 1 in a direction with an interior span structure or a rational shape; distinct = distinct case hash.")
 ASSUMPTIONS = ["nvmon.ref exact reference model", "only removable knots are removed (created by insertion/refinement in the same "
                "history); knot values are read back from the object before being referred to again",
-               "explored domain of DESIGN.md section 3; tolerance 1e-9*scale (1e-8*scale for restored control points)"]
+               "explored domain of DESIGN.md section 3; tolerance 1e-9*scale (1e-8*scale for restored control points), widened by the sound "
+               "conditioning bound 1e-13*(range/distance to nearest knot)^copies when that exceeds it (A5.8 divides by alpha per removed copy)"]
 FLOORS = {'quick': {'removal': 300, 'probe-lib': 3000, 'probe-defn': 3000, 'structure': 300, 'restored': 120},
           'thorough': {'removal': 4000, 'probe-lib': 40000, 'restored': 1500}}
 MANDATORY_TAGS = ['pdim1', 'pdim2', 'pdim3', 'rational', 'multi-dir-one-call', 'partial-removal', 'full-removal', 'after-refine', 'interleaved',
@@ -85,6 +86,20 @@ def check(case, ctx):
     orig = G.snapshot(o)
     sc = so.scale_of_defn(S0)
     tol = 1e-9 * sc
+    cond = {'amp': 1.0, 'removed': {}}    # conditioning of the removals performed so far (see note_removal)
+
+    def note_removal(d, u, r):
+        # A5.8 divides by alpha = (u - U[i]) / (U[i+p+1+t] - U[i]) (and by 1 - alpha_j) once per removed copy: rounding errors are
+        # amplified by at most (range / distance to the nearest other knot) per copy. That is conditioning of the operation, not a
+        # defect, so the acceptance band is widened by a sound bound of it (never below the 1e-9 policy).
+        U = G.kvs_of(o)[d]
+        rng_ = (U[-1] - U[0]) or 1.0
+        others = [k for k in set(U) if abs(k - u) > 1e-12 * abs(rng_)]
+        hrel = min(abs(k - u) for k in others) / abs(rng_) if others else 1.0
+        key = (d, round(u, 12))
+        cond['removed'][key] = cond['removed'].get(key, 0) + r
+        cond['amp'] = max(cond['amp'], 1e-13 * (1.0 / max(hrel, 1e-9)) ** cond['removed'][key] / 1e-9)
+        ctx.notes['max_conditioning_factor_applied'] = max(ctx.notes.get('max_conditioning_factor_applied', 1.0), cond['amp'])
     hsc = max(1.0, max(abs(c) for p in orig['hom'] for c in p))
     probes = so.probe_params(rng, S0, nrand=6, maxn=26 if pdim < 3 else 12)
     ctx.tag('pdim%d' % pdim, 'rational' if sd['rational'] else 'nonrational',
@@ -96,16 +111,16 @@ def check(case, ctx):
         post = G.snapshot(o)
         S1 = G.defn_of_snapshot(post)
         good = [q for q in probes if so.clear_of_knots(S1, q)]
-        a = so.compare_object(ctx, o, S0, good, tol, 'shape-changed/library-eval',
+        a = so.compare_object(ctx, o, S0, good, tol * cond['amp'], 'shape-changed/library-eval',
                               '%s: the object evaluates differently from the original' % step_desc, 'probe-lib')
-        b = a and so.compare_defns(ctx, S1, S0, good, tol, 'shape-changed/definition',
+        b = a and so.compare_defns(ctx, S1, S0, good, tol * cond['amp'], 'shape-changed/definition',
                                    '%s: the definition describes a different shape' % step_desc, 'probe-defn')
         return a and b
 
     def restored(desc):
         post = G.snapshot(o)
         ok = post['sizes'] == orig['sizes'] and len(post['hom']) == len(orig['hom']) and \
-            all(abs(x - y) <= 1e-8 * hsc for p, q in zip(post['hom'], orig['hom']) for x, y in zip(p, q)) and \
+            all(abs(x - y) <= 1e-8 * hsc * cond['amp'] for p, q in zip(post['hom'], orig['hom']) for x, y in zip(p, q)) and \
             all(len(a) == len(b) and all(abs(x - y) <= 1e-12 * max(1.0, abs(b[-1] - b[0])) for x, y in zip(a, b))
                 for a, b in zip(post['kvs'], orig['kvs']))
         ctx.check(ok, 'not-restored', '%s: removing every inserted copy did not restore the original control points / knot vectors'
@@ -113,6 +128,7 @@ def check(case, ctx):
 
     def do_remove(d, u, r, via, desc):
         pre = G.snapshot(o)
+        note_removal(d, u, r)
         with so.quiet():
             so.call_remove(o, d, u, r, via)
         post = G.snapshot(o)
@@ -129,7 +145,7 @@ def check(case, ctx):
         dirs = sorted(rng.sample(range(pdim), rng.randint(2, pdim)))
         prm, num = [None] * pdim, [0] * pdim
         for d in dirs:
-            pick = so.pick_insertion(rng, o, d, prefer_knot=0.3)
+            pick = so.pick_insertion(rng, o, d, prefer_knot=0.3, mindist=0.03)
             if pick is None:
                 raise Reject()
             u, s, tag = pick
@@ -140,6 +156,8 @@ def check(case, ctx):
         if not verify('after the insertions'):
             return
         ctx.tag('multi-dir-one-call', 'full-removal')
+        for d in dirs:
+            note_removal(d, prm[d], num[d])
         pre = G.snapshot(o)
         with so.quiet():
             if pdim == 2 and rng.random() < 0.5:
@@ -183,7 +201,8 @@ def check(case, ctx):
         plans = []
         for _ in range(1 if mode == 'single' else 2):
             d = rng.randrange(pdim)
-            pick = so.pick_insertion(rng, o, d, prefer_knot=0.35)
+            # mostly well-conditioned removals (>= 3% of the range away from every knot); a minority down to 1e-3
+            pick = so.pick_insertion(rng, o, d, prefer_knot=0.35, mindist=0.03 if rng.random() < 0.85 else 1e-3)
             if pick is None:
                 continue
             u, s, tag = pick
